@@ -143,7 +143,7 @@ struct World {
   ref::Name unknown;
   bool answer_mixed_families = false;    // put an AAAA next to A answers (and vice versa)
   bool suppress_empty = false;           // C20 twin: do not send the zero-length datagram of the 'empty' outcome
-  int cname_depth_mod = 3;
+  int cname_depth_mod = 3; bool answer_with_soa = false;
 
   World() { weights[O_ANSWER] = 1; }
 
@@ -214,6 +214,8 @@ struct World {
         } else {
           ref::RR rr; rr.owner = owner; rr.type = ref::T_TXT; rr.klass = 1; rr.ttl = ttl_of(20); rr.decoded = true; ref::Field f; f.kind = ref::F_ABIN; f.abin.push_back("serial=" + std::to_string(pv.serial)); rr.fields.push_back(f); m.sec[0].push_back(rr); pv.ttls.push_back(rr.ttl);
         }
+        // a positive answer may carry an authority SOA as well, with a TTL below the answer's (opt asoa=1): its TTL is visible through the APIs like any other
+        if (answer_with_soa && (h >> 20) % 2 == 0) soa(ttl_of(92) % 8, ttl_of(91));
       }
     }
     if (opt) {
